@@ -112,6 +112,17 @@ func checkQuery(req *http.Request, body []byte) (q *Msg, problems []string) {
 	}
 	q, err := Decode(body)
 	if err != nil {
+		// Say what is wrong with the name if that is the reason: read the
+		// question the way its encoder must have meant it (length octets
+		// taken at face value).
+		if name, ok := lenientQName(body); ok {
+			if pr := NameProblems(name); len(pr) > 0 {
+				for _, p := range pr {
+					problems = append(problems, "QNAME: "+p)
+				}
+				return nil, problems
+			}
+		}
 		problems = append(problems, "undecodable query: "+strings.TrimPrefix(err.Error(), "simdoh: malformed message: "))
 		return nil, problems
 	}
@@ -135,6 +146,35 @@ func checkQuery(req *http.Request, body []byte) (q *Msg, problems []string) {
 		problems = append(problems, "QNAME: "+p)
 	}
 	return q, problems
+}
+
+// lenientQName reads the first question name taking every length octet at
+// face value (0..255), which is what an encoder that does not check label
+// sizes produces.
+func lenientQName(b []byte) (string, bool) {
+	if len(b) < 13 || int(b[4])<<8|int(b[5]) != 1 {
+		return "", false
+	}
+	var labels []string
+	off := 12
+	for {
+		if off >= len(b) {
+			return "", false
+		}
+		n := int(b[off])
+		if n == 0 {
+			break
+		}
+		if off+1+n > len(b) {
+			return "", false
+		}
+		labels = append(labels, string(b[off+1:off+1+n]))
+		off += 1 + n
+	}
+	if off+5 > len(b) {
+		return "", false
+	}
+	return strings.Join(labels, "."), true
 }
 
 type failingReader struct {
